@@ -100,13 +100,31 @@ func (m *DidModel) Clone() *DidModel {
 		c := *e
 		o.Entries[k] = &c
 	}
-	for k, v := range m.Ledger {
-		o.Ledger[k] = v
-	}
+	// the ledger records facts about the harness (which signatures it made), not chain
+	// state: it is shared, never rolled back
+	o.Ledger = m.Ledger
 	for k, v := range m.Accepted {
 		o.Accepted[k] = v
 	}
 	return o
+}
+
+// ProofReg is a proof registration carried by a step so that a replay (which has no
+// generator) can rebuild the ledger; it is re-derived, not trusted.
+type ProofReg struct {
+	Key     int    `json:"key"`
+	Payload string `json:"payload_b64"`
+}
+
+// RegisterProofs re-makes the listed signatures and enters them into the ledger.
+func (w *World) RegisterProofs(regs []ProofReg) {
+	for _, r := range regs {
+		bz, err := base64.StdEncoding.DecodeString(r.Payload)
+		if err != nil || r.Key < 0 || r.Key >= len(w.Keys) {
+			continue
+		}
+		w.DID.SignProof(w.Keys, r.Key, bz)
+	}
 }
 
 // SignProof signs payload with pool key ki and records it in the ledger.
